@@ -27,7 +27,8 @@ STAGES = {
     "C09": [S("e_seq", "asu", 40000, 400000), S("e_tbb", "asu", 15000, 150000)],
     "C15": [S("e_seq", "asu", 40000, 400000)],
     "C03": [S("e_tbb", "asu", 18000, 300000), S("e_tbb", "tsan", 5000, 80000, gate=False)],
-    "C20": [S("e_knobreal", "asu", 3000, 30000), S("e_tbb", "asu", 12000, 150000), S("e_demo_mcb", "asu", 6000, 60000), S("e_demo_approx", "asu", 6000, 60000)],
+    # isolate: every history runs in its own forked process (the knob keeps state in a function-local static)
+    "C20": [S("e_knobreal", "asu", 3000, 30000, isolate=True), S("e_tbb", "asu", 10000, 120000, isolate=True), S("e_demo_mcb", "asu", 5000, 50000, isolate=True), S("e_demo_approx", "asu", 5000, 50000, isolate=True)],
     "C07": [S("e_seq", "asu", 4000, 40000, leakcheck=True), S("e_comp", "asu", 4000, 40000, leakcheck=True), S("e_tbb", "asu", 2000, 25000, leakcheck=True),
             S("e_mpi", "asu", 2000, 20000, leakcheck=True), S("e_tbb", "tsan", 1000, 20000, gate=False), S("e_mpi", "tsan", 800, 10000, gate=False),
             S("e_demo_mcb", "asu", 600, 15000, leakcheck=True), S("e_demo_approx", "asu", 600, 15000, leakcheck=True), S("e_demo_stats", "asu", 400, 8000, leakcheck=True), S("e_demo_mpi", "asu", 600, 15000, leakcheck=True),
@@ -143,6 +144,7 @@ class Worker:
         cmd = [binary(self.stage), "--prop", self.prop, "--tier", self.stage.get("tier_arg") or self.tier, "--seed", str(self.seed), "--from", str(frm), "--to", str(self.to),
                "--stride", str(self.stride), "--dir", self.rundir, "--id", str(self.wid), "--wall", str(self.wall), "--timeout", "60" if self.tier == "quick" else "300"]
         if self.stage.get("leakcheck"): cmd.append("--leakcheck")
+        if self.stage.get("isolate"): cmd.append("--isolate")
         if self.stage.get("wrapper") == "valgrind":
             cmd = ["valgrind", "-q", "--error-exitcode=99", "--exit-on-first-error=yes", "--num-callers=20"] + cmd + ["--timeout", "900"]
         env = stage_env(self.stage)
@@ -337,13 +339,15 @@ def check_property(prop, tier, seed, stages=None, extra_cov=None, class_filter=N
     for (cls, eng, flav), vs in sorted(by_class.items(), key=lambda kv: -len(kv[1])):
         if len(reported) >= 3: break
         vs.sort(key=lambda v: v[3]["i"])
-        v = vs[0]
-        if not v[2]: harness_error("violation without a case file")
-        try:
-            final, rep = minimise_and_confirm(prop, cls, v[1], v[2], os.environ.get("VERIF_REPLAYS", os.path.join(VERIF, "replays")), v[3].get("viol_file_prev"))
-        except Unattributed as ex:
-            unattributed.append(str(ex)); continue
-        reported.append((cls, final, len(vs), rep))
+        done = False
+        for v in vs[:4]:
+            if not v[2]: harness_error("violation without a case file")
+            try:
+                final, rep = minimise_and_confirm(prop, cls, v[1], v[2], os.environ.get("VERIF_REPLAYS", os.path.join(VERIF, "replays")), v[3].get("viol_file_prev"))
+            except Unattributed as ex:
+                unattributed.append(str(ex)); continue
+            reported.append((cls, final, len(vs), rep)); done = True
+            break
     if unattributed and not reported:
         harness_error("; ".join(unattributed))
     wall = time.time() - t_start
